@@ -94,6 +94,15 @@ PLAN = {
             "member of every couple with ONE value and the couples cover every unrolled layer",
             "parameters() counting each shared parameter once: read, not verified"],
     ),
+    "C12": dict(
+        title="validate and predict_batch are faithful aggregations of predict",
+        level="model_checking",
+        verus=[],
+        kani=True,
+        undecided_clauses=["data sets larger than the parallel chunk size 64 (that chunks(64) + flat_map + collect concatenates in order is std's / rayon's contract: assumed)",
+                           "predict = last activation of forward: read (two lines), not verified",
+                           "more than 3 samples / more than 2 outputs"],
+    ),
     "C13": dict(
         title="Early stopping and the returned histories obey their contract",
         level="model_checking",
@@ -238,6 +247,17 @@ MANIFEST_TEXT = {
              "repetitions are tied; by induction over the step sequence this holds for every history.",
         note="Tensor is opaque (clone preserves contents: assumed); the accumulation arithmetic and optimizer calls of update() are outside "
              "the verified regions; creation-time equality and parameters() are read, not verified.",
+    ),
+    "C12": dict(
+        category="model_checking",
+        technique="Kani bounded model checking of mechanical slices of validate() / predict_batch() with predict and the objective as oracles",
+        design_ref="DESIGN.md §5 C12",
+        text="Bounded: validate() is sliced mechanically (flag loops dropped, self.predict / self.objective.loss replaced by oracles); the "
+             "remaining pairing pipeline, accuracy rule and aggregation run verbatim in CBMC on 2-3 samples with symbolic predictions, targets "
+             "and per-sample losses: the result is the arithmetic mean of the per-sample losses and of the per-sample accuracies (arg-max "
+             "agreement for a soft-max output layer, else the fraction of components within the tolerance), every prediction paired with its own "
+             "target, in input order. predict_batch likewise (thorough tier).",
+        note="bounded in sample count and output width; chunk boundary (64) not crossed; oracles stand for predict and the objective.",
     ),
     "C13": dict(
         category="model_checking",
